@@ -215,9 +215,13 @@ static void discard(Type *ty) {
 
 // Line numbers past INT_MAX (`#line 2147483647`) wrap around and are
 // not valid in a .loc directive.
+//
+// Debug information follows #line directives; diagnostics (error_tok)
+// keep naming the physical line of the physical file they quote.
 static void emit_loc(Token *tok) {
-  if (tok->line_no > 0)
-    println("  .loc %d %d", tok->file->file_no, tok->line_no);
+  long line_no = (long)tok->line_no + tok->line_delta;
+  if (0 < line_no && line_no <= INT32_MAX)
+    println("  .loc %d %ld", tok->file->file_no, line_no);
 }
 
 // cmpxchg compares and stores the object representation held in
